@@ -1361,6 +1361,8 @@ func c06Generate() {
 	thorough := *tier == "thorough"
 
 	// ---- 1. cases expected to kill the process (known findings): first, and all on shard 0 ----
+	// (not repeated in the -race/checkptr build, whose purpose is the pointer-arithmetic instrumentation of the bulk)
+	raceBuild := strings.HasSuffix(os.Args[0], "_race")
 	for _, c := range [][2]string{
 		{"d.deepsyn.deepnest", "arropen|20000000"},
 		{"d.deep.deepnest", "any|u|arropen|10000000"},
@@ -1372,6 +1374,9 @@ func c06Generate() {
 		{"e.rectype.selfref", "M"}, {"e.rectype.selfref", "L"}, {"e.rectype.selfref", "P"}, {"e.rectype.selfref", "SP"},
 		{"e.rectype.selfref", "MS"}, {"e.rectype.selfref", "A"}, {"e.rectype.selfref", "Mdec"}, {"e.rectype.selfref", "Ldec"},
 	} {
+		if raceBuild {
+			break
+		}
 		onShard0()
 		c06Case(c[0], c[1])
 	}
@@ -1489,6 +1494,48 @@ func c06Generate() {
 		// encode side for the same type
 		for k := 0; k < 3; k++ {
 			c06Case("e.val", fmt.Sprintf("%s|%d|%d|%d", ts, rnd(), k/2, rndn(8)))
+		}
+	}
+
+	// ---- 5b. slice growth and fixed arrays: n elements into (slice T) / (arr N T), fresh and prepopulated ----
+	elemTypes := []string{"bool", "i8", "int", "f64", "str", "(struct)", "(arr 0 int)", "(arr 3 i64)", "(struct (f A - int) (f B - str))", "(struct (f A - i8) (f B - (ptr i64)) (f C - i8))",
+		"(ptr int)", "any", "(slice int)", "(map str int)", "bytes", "Time", "Number", "RawMessage", "PtrMarshaler", "ValText", "(arr 1 (ptr int))", "(struct (e (ptr EmbA)))", "u8", "(slice (slice u8))"}
+	lens := []int{0, 1, 2, 3, 4, 5, 7, 8, 9, 15, 16, 17, 31, 33, 64, 100, 257, 1000}
+	if thorough {
+		lens = append(lens, 1023, 1024, 1025, 4097, 20000)
+	}
+	for _, et := range elemTypes {
+		ex := parseSx(et)
+		var elems [][]byte
+		for len(elems) < 3 {
+			eb, err := stdjson.Marshal(jValue(ex, rnd(), 0).Interface())
+			if err != nil {
+				eb = []byte("null")
+			}
+			elems = append(elems, eb)
+		}
+		mk := func(n int) []byte {
+			var b bytes.Buffer
+			b.WriteByte('[')
+			for i := 0; i < n; i++ {
+				if i > 0 {
+					b.WriteByte(',')
+				}
+				b.Write(elems[i%len(elems)])
+			}
+			b.WriteByte(']')
+			return b.Bytes()
+		}
+		for _, n := range lens {
+			c06Case("d.doc", fmt.Sprintf("(slice %s)|%s|%d|%s", et, randCfg(), randPre(), hexs(mk(n))))
+			if n <= 17 {
+				c06Case("d.doc", fmt.Sprintf("(arr %d %s)|%s|%d|%s", pick([]int{0, 1, 2, 3, 7}), et, randCfg(), randPre(), hexs(mk(n))))
+				c06Case("d.doc", fmt.Sprintf("(map str (slice %s))|%s|%d|%s", et, randCfg(), randPre(), hexs([]byte(`{"a":`+string(mk(n))+`,"b":`+string(mk(n/2))+`,"a":`+string(mk(n+1))+`}`))))
+			}
+			if n <= 9 {
+				c06Case("d.pre", fmt.Sprintf("(slice %s)|%s|%d|%s", et, randCfg(), randPre(), hexs(mk(n))))
+				c06Case("d.cor", fmt.Sprintf("(slice %s)|u|%d|%s", et, randPre(), hexs(mk(min(n, 4)))))
+			}
 		}
 	}
 
